@@ -18,6 +18,11 @@ def apply(d, wt, change):
         os.chmod(os.path.join(d, "f"), 0o755)
     elif change == "rename2":
         wt.rename_one("f", "h")
+    elif change == "swapdir":
+        # same PATH for lib/x afterwards, but its parent directory is a different one (the old lib is now lib_old)
+        wt.rename_one("lib", "lib_old")
+        os.mkdir(os.path.join(d, "lib")); wt.add(["lib"], ids=[b"lib2-id"])
+        wt.rename_one("lib_old/x", "lib/x")
     elif change == "none":
         return
     wt.commit(change, committer="t <t@e.x>", allow_pointless=True)
@@ -29,17 +34,20 @@ def state(d, wt):
         for p, e in wt.iter_entries_by_dir():
             if e.kind == "file":
                 out[e.file_id] = (p, bool(os.stat(os.path.join(d, p)).st_mode & stat.S_IXUSR))
+            elif p and e.file_id != b"dir-id":
+                out[e.file_id] = (p, None)
     return out
 
 
 tried = 0
 try:
-    changes = ["none", "rename", "move", "exec", "rename2"]
+    changes = ["none", "rename", "move", "exec", "rename2", "swapdir"]
     for tc, oc in itertools.product(changes, repeat=2):
         tried += 1
         d = os.path.join(base, "t%d" % tried); os.mkdir(d)
         cd = fmt.initialize(d); cd.create_repository(); cd.create_branch(); wt = cd.create_workingtree()
         os.mkdir(os.path.join(d, "dir")); open(os.path.join(d, "f"), "w").write("F\n"); wt.add(["dir", "f"], ids=[b"dir-id", b"f-id"])
+        os.mkdir(os.path.join(d, "lib")); open(os.path.join(d, "lib", "x"), "w").write("X\n"); wt.add(["lib", "lib/x"], ids=[b"lib-id", b"x-id"])
         wt.commit("base", committer="t <t@e.x>")
         base_state = state(d, wt)
         od = d + "_o"
@@ -60,8 +68,8 @@ try:
         if tc == oc and (merged != this_state or conflicts):
             verdict(True, "identical changes on both sides were not a conflict-free no-op", input=dict(this=tc, other=oc), observed=str((merged, conflicts)))
         if {tc, oc} == {"rename", "exec"} or {tc, oc} == {"move", "exec"}:
-            exp = {b"f-id": ("g" if "rename" in (tc, oc) else "dir/f", True)}
-            if merged != exp or conflicts:
+            exp = ("g" if "rename" in (tc, oc) else "dir/f", True)
+            if merged.get(b"f-id") != exp or conflicts:
                 verdict(True, "disjoint changes (path on one side, executable bit on the other) were not both taken", input=dict(this=tc, other=oc), observed=str((merged, conflicts)))
         if {tc, oc} == {"rename", "rename2"} and not conflicts:
             verdict(True, "different renames on the two sides were merged without reporting a conflict", input=dict(this=tc, other=oc), observed=str(merged))
